@@ -94,11 +94,19 @@ void kfifo_test() {
   if (pops == 0 && T > 1) prune();
   typename A::Q* q = A::make(k, segs);
   int next = 1;
-  auto apply = [q](int op, int val) {
+  // the popping entry point: try_pop(value_type&) or pop() -> std::optional; --opt api=0 / 1 fixes one of them, the
+  // default (2) alternates with the parity of the operation's sequence number, so that both are met in every run
+  const int api = (int)opt("api", 2);
+  auto apply = [q, api](int op, int val) {
     if (op == 0) {
       op_begin(0, val);
       bool ok = A::push(*q, val);
       op_end(ok);
+    } else if (api == 1 || (api == 2 && (val & 1))) {
+      op_begin(1);
+      auto r = q->pop();
+      bool ok = r.has_value();
+      op_end(ok, ok ? dec(*r) : 0);
     } else {
       int* v = nullptr;
       op_begin(1);
@@ -121,7 +129,7 @@ void kfifo_test() {
   }
   for (int i = 0; i < 14; i++) { // final drain: nothing runs concurrently, so 'empty' must mean empty
     int before = history_size();
-    apply(1, 0);
+    apply(1, i);
     if (history_at(before).r0 == 0) break;
   }
   delete q;
